@@ -57,6 +57,9 @@ func c19Cmd(t *rapid.T) []string {
 		return pick(t, "delete",
 			[]string{"DEL", k}, []string{"UNLINK", k}, []string{"GETDEL", "s1"}, []string{"LPOP", "l1", "10"}, []string{"HDEL", "h1", "f", "g", "n", "nx"}, []string{"SREM", "z1", "a", "b", "10", "", "m2", "longer value with spaces", "\x00\xff\r\n"},
 			[]string{"FLUSHDB"}, []string{"FLUSHALL"}, []string{"PEXPIREAT", k, "1000000000000"}, []string{"RENAME", k, "gone"}, []string{"DEL", "gone"},
+			// deletion through a deadline that has passed already
+			[]string{"EXPIRE", k, "-1"}, []string{"PEXPIRE", k, "0"}, []string{"EXPIREAT", k, "1"}, []string{"PEXPIREAT", k, "1000"}, []string{"GETEX", pick(t, "gk", "s1", "s2", "x"), "PXAT", "1000"},
+			[]string{"GETEX", pick(t, "gk2", "s1", "s2"), "EXAT", "1"}, []string{"SET", pick(t, "sk2", "s1", "s2"), v, "PXAT", "1000"}, []string{"EXPIRE", k, "-100", "LT"},
 		)
 	}
 	return []string{"SELECT", pick(t, "db", c19Dbs...)}
@@ -64,11 +67,12 @@ func c19Cmd(t *rapid.T) []string {
 
 func c19Gen(t *rapid.T) C19Case {
 	var c C19Case
-	restarts := rapid.IntRange(2, 4).Draw(t, "restarts")
+	restarts := rapid.IntRange(2, 6).Draw(t, "restarts")
 	for r := 0; r < restarts; r++ {
-		n := rapid.IntRange(0, 10).Draw(t, "steps")
+		// later rounds are often a single command: then it alone decides whether anything is saved
+		n := pick(t, "steps", 0, 1, 1, 1, 2, 3, 5, 8, 10)
 		if r == 0 {
-			n += 3
+			n = rapid.IntRange(4, 14).Draw(t, "steps0")
 		}
 		for i := 0; i < n; i++ {
 			c.Steps = append(c.Steps, kit.A(c19Cmd(t)...))
